@@ -111,7 +111,7 @@ func checkC01(c *Ctx) {
 	c.Note("%d protected-template names have no template in the forest (stale protection rows; harmless, not a rule)", stale)
 
 	// ---- R3 tables
-	checkFormatTables(c, gen)
+	checkFormatTables(c, "C01.R3.symbol-tables", gen)
 
 	// ---- R4 reserved words
 	checkReservedWords(c, gen)
@@ -140,6 +140,10 @@ func checkC01(c *Ctx) {
 		checkPointerMarkers(c, "C01.R12.pointer-markers", ev)
 		// a package the generated code refers to and nothing imports compiles only if goimports finds it
 		checkImportsExplicit(c, "C01.R16.imports-explicit", gen)
+		checkKeyedStores(c, "C01.R17.keyed-stores", gen, 1)
+		checkFallbackSource(c, "C01.R18.fallback-source", gen, 1)
+		// text that ends its comment or string too early leaves code the formatter rejects: generation fails
+		checkContextKinds(c, "C01.R19.context-kind", ev, checkExampleIsJSON(c, "C01.R19.example-json", gen))
 	}
 	checkVersionedImports(c, "C01.R14.versioned-imports", gen)
 
@@ -202,8 +206,7 @@ func evalIn(scope *types.Package, expr string) (types.TypeAndValue, error) {
 	return types.Eval(token.NewFileSet(), scope, token.NoPos, expr)
 }
 
-func checkFormatTables(c *Ctx, gen *packages.Package) {
-	rule := "C01.R3.symbol-tables"
+func checkFormatTables(c *Ctx, rule string, gen *packages.Package) {
 	c.Rule(rule, "format/converter/zero/producer tables name existing Go symbols of the right type and agree with each other", 150)
 	prog := c.ProgDeps("./generator", "github.com/go-openapi/runtime/yamlpc")
 	scope := depScope(prog)
